@@ -54,6 +54,9 @@ def readonly(ctx, R="R-C15-readonly"):
         bad = [w for w in ws if False in w.flags]
         ctx.check(not bad, R, f, bad[0].stmt if bad else f.node, "%s.apply does not write through its input unless in_place" % cls,
                   "%s.apply can modify the caller's array with in_place=False (%s)" % (cls, ", ".join(sorted({w.how for w in bad}))), robust=True)
+    from ..eff import check_result_fresh
+    for cls in ("Deltas", "Stack"):
+        check_result_fresh(ctx, R, _m(prog, cls, "apply"))
     # Stack: the 2-D path copies unless in_place
     f = _m(prog, "Stack", "apply")
     cps = [n for n in f.body_nodes() if isinstance(n, ast.Assign) and astq.eq_text(n.value, "features.copy()")]
@@ -63,7 +66,7 @@ def readonly(ctx, R="R-C15-readonly"):
         g = [astq.text(a.test) for a in astq.ancestors(pm, cps[0]) if isinstance(a, ast.If)]
         ok = g[:1] == ["not in_place"]
     ctx.check(ok, R, f, cps[0] if cps else MISSING(f.node), "the 2-D path of Stack.apply works on a copy unless in_place",
-              "Stack.apply's 2-D path does not copy under `not in_place` (its result would be a view of the caller's array)", robust=True)
+              "Stack.apply's 2-D path does not copy under `not in_place` (its result would be a view of the caller's array)", structural=True)
     # in_place = True only after the array was replaced by np.pad's fresh result
     sets = [n for n in f.body_nodes() if isinstance(n, ast.Assign) and astq.is_name(n.targets[0], "in_place")]
     for s_ in sets:
